@@ -13,4 +13,215 @@ structure RowInv (top : P) (d : Nat → P) (offers : List (Nat × Bool)) (h : Ro
   excl : ∀ o ∈ offers, d o.1 < top → (∃ e ∈ h, e.idx = (o.1 : Int)) ∨
             ∀ (hk : 0 < h.size), h[0].prio ≤ d o.1
 
+/-- `RowInv` depends only on the *set* of offers. -/
+theorem RowInv.congr {top : P} {d : Nat → P} {l1 l2 : List (Nat × Bool)} {h : Row P}
+    (hl : ∀ x, x ∈ l1 ↔ x ∈ l2) (hinv : RowInv top d l1 h) : RowInv top d l2 h := by
+  refine ⟨hinv.heap, ?_, hinv.sent, hinv.nodup, ?_⟩
+  · intro e he hidx
+    obtain ⟨h1, h2, h3⟩ := hinv.real e he hidx
+    exact ⟨(hl _).mp h1, h2, h3⟩
+  · intro o ho hfin
+    exact hinv.excl o ((hl _).mpr ho) hfin
+
+omit [LinearOrder P] in
+/-- Replacing the root by a real entry whose index is not held keeps the held indices
+duplicate-free. -/
+theorem nodup_set_root (h : Row P) (x : Entry P) (hx : 0 ≤ x.idx)
+    (hnd : ((h.toList.filter (fun e => 0 ≤ e.idx)).map (·.idx)).Nodup)
+    (hnot : ∀ e ∈ h, e.idx ≠ x.idx) :
+    (((h.setIfInBounds 0 x).toList.filter (fun e => 0 ≤ e.idx)).map (·.idx)).Nodup := by
+  rcases h with ⟨_ | ⟨r, rest⟩⟩
+  · simp
+  · have hsub : ((rest.filter (fun e => 0 ≤ e.idx)).map (·.idx)).Sublist
+        (((r :: rest).filter (fun e => 0 ≤ e.idx)).map (·.idx)) :=
+      ((List.sublist_cons_self r rest).filter _).map _
+    have hrest := hnd.sublist hsub
+    simp only [Array.toList_setIfInBounds, List.set_cons_zero]
+    rw [List.filter_cons_of_pos (by simpa using hx), List.map_cons, List.nodup_cons]
+    refine ⟨?_, hrest⟩
+    intro hmem
+    obtain ⟨e, he, heq⟩ := List.mem_map.mp hmem
+    have he' : e ∈ rest := (List.mem_filter.mp he).1
+    exact hnot e (by simp [he']) heq
+
+/-- One push preserves the invariant (the new offer is added to the offer set). -/
+theorem push_inv (c : Bool) (top : P) (htop : ∀ x : P, x ≤ top) (d : Nat → P)
+    (offers : List (Nat × Bool)) (h : Row P) (n : Nat) (f : Bool)
+    (hnew : c = false → n ∉ offers.map (·.1)) (hinv : RowInv top d offers h) :
+    RowInv top d ((n, f) :: offers) (push c h (d n) n f).1 := by
+  by_cases hacc : (push c h (d n) (n : Int) f).2 = true
+  · -- accepted
+    have hperm := push_perm c h (d n) n f hacc
+    have hheap := push_heap c h (d n) n f hinv.heap
+    obtain ⟨hk, hlt, hscan⟩ := (push_accept_iff c h (d n) n f).mp hacc
+    have hmem := mem_of_perm_set (x := ⟨d n, (n:Int), f⟩) hk hperm
+    -- no held entry carries index `n`
+    have hnot : ∀ e ∈ h, e.idx ≠ (n : Int) := by
+      intro e he heq
+      cases c with
+      | true => exact hscan rfl e he heq
+      | false =>
+        have hidx : 0 ≤ e.idx := by omega
+        obtain ⟨h1, _, _⟩ := hinv.real e he hidx
+        apply hnew rfl
+        refine List.mem_map.mpr ⟨_, h1, ?_⟩
+        simp [heq]
+    -- the new root is bounded by the old one
+    have hroot : ∀ (hk' : 0 < (push c h (d n) (n : Int) f).1.size),
+        ((push c h (d n) (n : Int) f).1[0]).prio ≤ h[0].prio := by
+      intro hk'
+      rcases (hmem _).mp (Array.getElem_mem hk') with heq | ⟨j, hj, _, heq⟩
+      · rw [heq]; exact le_of_lt hlt
+      · rw [← heq]; exact isHeap_root_max h hinv.heap j hj
+    refine ⟨hheap, ?_, ?_, ?_, ?_⟩
+    · intro e he hidx
+      rcases (hmem e).mp he with rfl | ⟨j, hj, hj0, rfl⟩
+      · simp
+        exact lt_of_lt_of_le hlt (htop _)
+      · obtain ⟨h1, h2, h3⟩ := hinv.real h[j] (Array.getElem_mem hj) hidx
+        exact ⟨List.mem_cons_of_mem _ h1, h2, h3⟩
+    · intro e he hidx
+      rcases (hmem e).mp he with rfl | ⟨j, hj, hj0, rfl⟩
+      · simp at hidx; omega
+      · exact hinv.sent h[j] (Array.getElem_mem hj) hidx
+    · have hl := Array.perm_iff_toList_perm.mp hperm
+      have := ((hl.filter (fun e => 0 ≤ e.idx)).map (·.idx)).nodup_iff
+      rw [this]
+      exact nodup_set_root h ⟨d n, (n:Int), f⟩ (by simp) hinv.nodup hnot
+    · intro o ho hfin
+      rcases List.mem_cons.mp ho with rfl | ho'
+      · left
+        exact ⟨⟨d n, (n:Int), f⟩, (hmem _).mpr (Or.inl rfl), rfl⟩
+      · rcases hinv.excl o ho' hfin with ⟨e, he, heq⟩ | hr
+        · obtain ⟨i, hi, rfl⟩ := Array.mem_iff_getElem.mp he
+          by_cases hi0 : i = 0
+          · subst hi0
+            right
+            intro hk'
+            obtain ⟨_, h2, _⟩ := hinv.real h[0] he (by omega)
+            have : h[0].prio = d o.1 := by rw [h2, heq]; simp
+            rw [← this]
+            exact hroot hk'
+          · left
+            exact ⟨h[i], (hmem _).mpr (Or.inr ⟨i, hi, by omega, rfl⟩), heq⟩
+        · right
+          intro hk'
+          exact le_trans (hroot hk') (hr hk)
+  · -- rejected: row unchanged
+    have hrej : (push c h (d n) (n : Int) f).2 = false := by simpa using hacc
+    have hnacc := (not_congr (push_accept_iff c h (d n) n f)).mp hacc
+    rw [push_reject c h (d n) n f hrej]
+    refine ⟨hinv.heap, ?_, hinv.sent, hinv.nodup, ?_⟩
+    · intro e he hidx
+      obtain ⟨h1, h2, h3⟩ := hinv.real e he hidx
+      exact ⟨List.mem_cons_of_mem _ h1, h2, h3⟩
+    · intro o ho hfin
+      rcases List.mem_cons.mp ho with rfl | ho'
+      · -- the new offer was rejected: empty row, too far, or a duplicate
+        by_cases hheld : ∃ e ∈ h, e.idx = (n : Int)
+        · exact Or.inl hheld
+        · right
+          intro hk
+          apply le_of_not_gt
+          intro hlt
+          apply hnacc
+          refine ⟨hk, hlt, ?_⟩
+          intro _ e he heq
+          exact hheld ⟨e, he, heq⟩
+      · exact hinv.excl o ho' hfin
+
+/-- The row is full, or it holds every finite offer. -/
+theorem RowInv.full_or_all {top : P} {d : Nat → P} {offers : List (Nat × Bool)} {h : Row P}
+    (hinv : RowInv top d offers h) (_htop : ∀ x : P, x ≤ top) :
+    (∀ e ∈ h, 0 ≤ e.idx) ∨
+      (∀ o ∈ offers, d o.1 < top → ∃ e ∈ h, e.idx = (o.1 : Int)) := by
+  by_cases hall : ∀ e ∈ h, 0 ≤ e.idx
+  · exact Or.inl hall
+  · right
+    obtain ⟨e, hne⟩ := Classical.not_forall.mp hall
+    obtain ⟨he, hneg⟩ := Classical.not_imp.mp hne
+    obtain ⟨_, hp⟩ := hinv.sent e he (by omega)
+    obtain ⟨i, hi, rfl⟩ := Array.mem_iff_getElem.mp he
+    have hroot := isHeap_root_max h hinv.heap i hi
+    rw [hp] at hroot
+    intro o ho hfin
+    rcases hinv.excl o ho hfin with hheld | hr
+    · exact hheld
+    · exact absurd (lt_of_le_of_lt (le_trans hroot (hr (by omega))) hfin) (lt_irrefl _)
+
+/-- Every finite offer that is not held is at least as far as every held candidate. -/
+theorem RowInv.best {top : P} {d : Nat → P} {offers : List (Nat × Bool)} {h : Row P}
+    (hinv : RowInv top d offers h) :
+    ∀ a ∈ h, 0 ≤ a.idx → ∀ o ∈ offers, d o.1 < top → (¬ ∃ e ∈ h, e.idx = (o.1 : Int)) →
+      a.prio ≤ d o.1 := by
+  intro a ha _ o ho hfin hnot
+  obtain ⟨i, hi, rfl⟩ := Array.mem_iff_getElem.mp ha
+  rcases hinv.excl o ho hfin with hheld | hr
+  · exact absurd hheld hnot
+  · exact le_trans (isHeap_root_max h hinv.heap i hi) (hr (by omega))
+
+/-- The empty row satisfies the invariant for the empty offer set. -/
+theorem mkRow_inv (top : P) (k : Nat) (d : Nat → P) : RowInv top d [] (mkRow top k) := by
+  refine ⟨?_, ?_, ?_, ?_, ?_⟩
+  · intro j hj hj0
+    simp [mkRow]
+  · intro e he hidx
+    simp only [mkRow, Array.mem_replicate] at he
+    rw [he.2] at hidx
+    simp at hidx
+  · intro e he _
+    simp only [mkRow, Array.mem_replicate] at he
+    rw [he.2]
+    exact ⟨rfl, rfl⟩
+  · have : (mkRow top k).toList.filter (fun e => 0 ≤ e.idx) = [] := by
+      rw [List.filter_eq_nil_iff]
+      intro e he
+      simp only [mkRow, Array.toList_replicate, List.mem_replicate] at he
+      rw [he.2]
+      simp
+    rw [this]
+    exact List.nodup_nil
+  · intro o ho
+    simp at ho
+
+theorem foldl_push_size (c : Bool) (d : Nat → P) (offers : List (Nat × Bool)) (h : Row P) :
+    (offers.foldl (fun h o => (push c h (d o.1) o.1 o.2).1) h).size = h.size := by
+  induction offers generalizing h with
+  | nil => rfl
+  | cons o rest ih => rw [List.foldl_cons, ih, push_size]
+
+/-- Feeding `rest` to a row satisfying the invariant for `done`. -/
+theorem foldl_push_inv (c : Bool) (top : P) (htop : ∀ x : P, x ≤ top) (d : Nat → P)
+    (done rest : List (Nat × Bool)) (h : Row P)
+    (hd : c = false → ((done ++ rest).map (·.1)).Nodup)
+    (hinv : RowInv top d done h) :
+    RowInv top d (done ++ rest) (rest.foldl (fun h o => (push c h (d o.1) o.1 o.2).1) h) := by
+  induction rest generalizing done h with
+  | nil => simpa using hinv
+  | cons o rest ih =>
+    obtain ⟨n, f⟩ := o
+    have hnew : c = false → n ∉ done.map (·.1) := by
+      intro hc
+      have := hd hc
+      rw [List.map_append, List.nodup_append] at this
+      intro hmem
+      exact this.2.2 _ hmem _ (by simp) rfl
+    have h1 := push_inv c top htop d done h n f hnew hinv
+    have h2 : RowInv top d (done ++ [(n, f)]) (push c h (d n) n f).1 :=
+      h1.congr (by intro x; simp [or_comm])
+    have := ih (done ++ [(n, f)]) _ (by simpa using hd) h2
+    simpa using this
+
+theorem run_size (c : Bool) (top : P) (k : Nat) (d : Nat → P) (offers : List (Nat × Bool)) :
+    (offers.foldl (fun h o => (push c h (d o.1) o.1 o.2).1) (mkRow top k)).size = k := by
+  rw [foldl_push_size]; simp [mkRow]
+
+theorem run_inv (c : Bool) (top : P) (htop : ∀ x : P, x ≤ top) (k : Nat) (d : Nat → P)
+    (offers : List (Nat × Bool)) (hd : c = false → (offers.map (·.1)).Nodup) :
+    RowInv top d offers
+      (offers.foldl (fun h o => (push c h (d o.1) o.1 o.2).1) (mkRow top k)) := by
+  have := foldl_push_inv c top htop d [] offers (mkRow top k) (by simpa using hd)
+    (mkRow_inv top k d)
+  simpa using this
+
 end Pynn
